@@ -5,7 +5,7 @@
 From DtlsV Require Import Lib.Bytes Frag.Split Frag.Buffer Frag.BufferSound.
 Open Scope N_scope.
 
-(* K-C08-2, the slot of a message the peer sends PROTECTED: an unprotected (epoch 0) record carrying the type and
+(* F102, the slot of a message the peer sends PROTECTED: an unprotected (epoch 0) record carrying the type and
    message_seq of that message arrives first.  It is popped - with epoch 0 and the forger's body - and the genuine
    protected message that follows is only a "retransmission": it is never surfaced.  (The flight parser wants the
    protected epoch, finds epoch 0, and the handshake is wedged or aborted.) *)
@@ -17,7 +17,7 @@ Theorem slot_theft_refuted :
   map (fun p => (p_epoch p, p_body p)) (snd (fst (run init [slot_genuine]))) = [(2, [7; 7])].
 Proof. vm_compute. split; reflexivity. Qed.
 
-(* K-C08-3b, the pinned length: ONE forged one-byte first fragment {next message_seq, offset 0, declared length 5000}
+(* F103, the pinned length: ONE forged one-byte first fragment {next message_seq, offset 0, declared length 5000}
    fixes handshakeLength; the genuine message (same offset, its own length) is then never reassembled *)
 Definition pin_forged : record := RHs 0 [mkFrag 2 5000 0 0 [1]] 0.
 Definition pin_genuine : record := RHs 0 [mkFrag 2 4 0 0 [1; 2; 3; 4]] 0.
